@@ -130,6 +130,11 @@ def run(res, replay=None):
         for mdl in ({'kind': 'dirac', 'psi': 0.5, 'c': 1.0, 'scale_time': True}, {'kind': 'beta', 'alpha': 1.5, 'scale_time': True}):
             sp = {'n_items': [['a', 4]], 'model': mdl, 'pop_sizes': {'a': {'0.0': 1.0, '0.5': 4.0, '2.0': 0.5}}, 'designed': 'scaled_mm_size_change'}
             items.append(dict(spec=sp, lc=False, ops=[o for o in build_ops(rng, sp) if o['py'].get('path') in ('sfs.mean', 'fsfs.mean', 'sfs.var')]))
+        # the FULL covariance / correlation matrices for n = 4 and n = 5 (the smallest sizes with pairs i > j, i + j > n whose ordered
+        # second cross moment is exactly zero on one side): every entry against the model
+        for n_ in ((4,) if res.tier == 'quick' else (4, 5)):
+            sp = {'n_items': [['a', n_]], 'model': {'kind': 'kingman'}, 'pop_sizes': {'a': {'0.0': 1.0, '0.5': 2.0}}, 'designed': 'full_cov_matrix'}
+            items.append(dict(spec=sp, lc=False, ops=[o for o in build_ops(rng, sp) if o['py'].get('path') in ('sfs.cov', 'sfs.corr') and o['py'].get('kind') == 'attr']))
         # a very short, very strong bottleneck (the piecewise-constant stand-in for an instantaneous one): an epoch far shorter than
         # 1e-5 of its end time still carries 5 coalescent units
         sp = {'n_items': [['a', 4]], 'model': {'kind': 'kingman'}, 'pop_sizes': {'a': {'0.0': 1.0, '1.0': 1e-6, '1.000005': 1.0}},
